@@ -18,6 +18,6 @@ pub fn run(ctx: &Ctx) -> Outcome {
     crate::meshrun::run(
         ctx,
         Prop::C28,
-        &["add.Heartbeat", "add.SubscribeRpc", "add.GraftRpc", "add.LocalSubscribe", "graft.refused-mesh-full", "graft.refused-backoff", "graft.refused-negative-score", "graft.refused-explicit", "graft.from-floodsub", "prune-out.with-backoff", "prune-in", "add.Heartbeat.mesh-not-low", "heartbeat.outbound-quota-unmet-candidate-backed-off"],
+        &["add.Heartbeat", "add.SubscribeRpc", "add.GraftRpc", "add.LocalSubscribe", "graft.refused-mesh-full", "graft.refused-backoff", "graft.refused-negative-score", "graft.refused-explicit", "graft.from-floodsub", "prune-out.with-backoff", "prune-in", "add.Heartbeat.mesh-not-low", "heartbeat.outbound-quota-unmet-candidate-backed-off", "join-from-nonempty-fanout", "publish.fanout-nonempty"],
     )
 }
